@@ -133,6 +133,9 @@ def handle (args : List String) : String :=
   | ["p_border", p, a, b, c, d] => match parsePyr p, parseNats [a, b, c, d] with
     | some p, some [a, b, c, d] => showO Pyramid.render (Pyramid.addBorder p a b c d)
     | _, _ => "bad-op"
+  | ["p_geo", p, w, s, e, n] => match parsePyr p, parseF w, parseF s, parseF e, parseF n with
+    | some p, some w, some s, some e, some n => showO Pyramid.render (Geo.pyramidIntersectGeo p ⟨w, s, e, n⟩)
+    | _, _, _, _, _ => "bad-op"
   -- geo (floats as u64 bit patterns)
   | ["g_from", z, w, s, e, n] => match z.toNat?, parseF w, parseF s, parseF e, parseF n with
     | some z, some w, some s, some e, some n => showO render (Geo.bboxFromGeo z ⟨w, s, e, n⟩)
